@@ -8,7 +8,8 @@ CONSTANTS
   ABORTS = TRUE
   RESETONERR = TRUE
   EOMCTX = FALSE
+  KEEPOPEN = TRUE
   GEN = FALSE
-INVARIANTS C01_Messages C01_AllButLastFull C01_NothingLeftBehind C01_SizeBound C13_CancelledWritesNothing
+INVARIANTS C01_Messages C01_AllButLastFull C01_NothingLeftBehind C01_SizeBound C01_FlushTerminates C13_CancelledWritesNothing
 VIEW View
 CHECK_DEADLOCK FALSE
